@@ -116,6 +116,13 @@ def impl_case(args) -> dict:
             cwd, target = target_abs, "."
         elif case["spelling"] == "rel":
             cwd, target = proj, (os.path.join(*case["rel"]) if case["rel"] else ".")
+        elif case["spelling"] == "dotdot":
+            # through an existing sibling directory and back: `sd/../<rel>` from the root, or `../<rel>` from inside `sd`
+            sd = case["via"]
+            if case["via_cwd"]:
+                cwd, target = proj / sd, os.path.join("..", *case["rel"])
+            else:
+                cwd, target = proj, os.path.join(sd, "..", *case["rel"])
         else:
             cwd, target = proj, str(target_abs)
         # explicit project root: root *detection* (marker search) is C09's subject, and trees here contain `.git` dirs
@@ -145,6 +152,18 @@ def impl_case(args) -> dict:
                 out["errors"].append(f"magic-numbers --parallel: exit {code2}: {stdout2[:300]}")
             else:
                 out["linted_py_parallel"] = sorted({os.path.relpath(os.path.join(cwd, v["file_path"]), target_abs) for v in vs2})
+        # several targets in one run (relative spellings from the project root)
+        if case.get("targets"):
+            spelled = [os.path.join(*(t.get("dir") or t.get("file"))) if (t.get("dir") or t.get("file")) else "." for t in case["targets"]]
+            a3 = ["--project-root", str(proj), "file-placement", "--format", "json"] + ([] if case["recursive"] else ["--no-recursive"]) + spelled
+            code3, stdout3 = core.run_cli(a3, cwd=proj)
+            vs3 = core.violations_json(stdout3)
+            if vs3 is None:
+                out["errors"].append(f"several targets {spelled}: exit {code3}: {stdout3[:300]}")
+            else:
+                got3 = sorted({os.path.relpath(os.path.join(proj, v["file_path"]), proj) for v in vs3})
+                out["multi"] = got3
+                out["multi_dups"] = len(vs3) - len(got3)
         # explicitly named files
         exp = []
         if case["explicit"]:
@@ -183,8 +202,31 @@ def gen_case(rng, excl_dirs, excl_exts):
         sub = next(n["k"] for n in sub if n.get("d") == r)
     files = all_files(sub)
     explicit = rng.sample(files, min(len(files), rng.choice([0, 2, 3])))
-    return {"tree": tree, "rel": rel, "carrier": carrier, "recursive": rng.random() < 0.7, "parallel": rng.random() < 0.3,
-            "spelling": rng.choice(["dot", "rel", "abs"]), "forms": gen_forms(rng, sub), "explicit": explicit}
+    case = {"tree": tree, "rel": rel, "carrier": carrier, "recursive": rng.random() < 0.7, "parallel": rng.random() < 0.3,
+            "spelling": rng.choice(["dot", "rel", "abs", "dotdot"]), "forms": gen_forms(rng, sub), "explicit": explicit}
+    top_dirs = [n["d"] for n in tree if "d" in n]
+    if case["spelling"] == "dotdot":
+        if top_dirs:
+            case["via"], case["via_cwd"] = rng.choice(top_dirs), rng.random() < 0.5
+        else:
+            case["spelling"] = "rel"
+    if not rel and rng.random() < 0.5:
+        # several targets: directories (also nested, excluded-named, named twice, one inside another) and files (also inside a
+        # named directory)
+        dirs = [[d] for d in top_dirs]
+        for n in tree:
+            if "d" in n:
+                dirs += [[n["d"], k["d"]] for k in n["k"] if "d" in k]
+        pool = [{"dir": d} for d in dirs] + [{"file": list(f)} for f in all_files(tree)]
+        if pool:
+            ts = [rng.choice(pool) for _ in range(rng.choice([2, 2, 3, 4]))]
+            if rng.random() < 0.2:
+                ts.append(ts[0])
+            if rng.random() < 0.15:
+                ts.append({"dir": []})
+            case["targets"] = ts
+            case["recursive"] = rng.random() < 0.5
+    return case
 
 
 def subtree(tree, rel):
@@ -209,7 +251,7 @@ def evaluate(cases, res: core.Result, procs=16):
     for i, c in enumerate(cases):
         t = with_config_files(c, subtree(c["tree"], c["rel"]))
         reqs.append({"prop": PROP, "tree": t, "forms": c["forms"], "recursive": c["recursive"],
-                     "rel": c["rel"], "explicit": c["explicit"]})
+                     "rel": c["rel"], "explicit": c["explicit"], "targets": c.get("targets", [])})
     drv = core.Driver()
     leans = drv.batch(reqs)
     drv.close()
@@ -246,6 +288,19 @@ def evaluate(cases, res: core.Result, procs=16):
                     problems.append(f"--parallel run (magic-numbers probe) linted {im['linted_py_parallel']}, model {want}")
                     if im["linted_py_parallel"] != [p for p in spec if p.endswith(SRC)]:
                         fails = True
+            if "multi" in im:
+                res.bump("several targets", f"{len(c['targets'])} targets, " + ("recursive" if c["recursive"] else "--no-recursive"))
+                want = sorted(l["multi"])
+                if im["multi"] != want:
+                    problems.append(f"run with targets {c['targets']} ({'recursive' if c['recursive'] else '--no-recursive'}): implementation-only "
+                                    f"{sorted(set(im['multi']) - set(want))}, model-only {sorted(set(want) - set(im['multi']))}")
+                    if not l["deviations"]:
+                        fails = True
+                # (a run whose targets are all files lints the list as given: a file named twice is linted twice; with a
+                #  directory among the targets the run is merged and every file is linted once)
+                if im.get("multi_dups") and any("dir" in t for t in c["targets"]):
+                    problems.append(f"{im['multi_dups']} file(s) reported more than once in a run with several targets")
+                    fails = True
             if im.get("dups"):
                 problems.append(f"{im['dups']} file(s) reported more than once")
                 fails = True
